@@ -231,9 +231,12 @@ EffectVisibleC(n, c, n2) ==
   /\ c.op \in {"create", "mkdir", "set_oid"} => GetOid(n2, c.p) = c.i
   /\ c.op = "create" => GetType(n2, c.p) = FILE
   /\ c.op = "mkdir" => GetType(n2, c.p) = DIR
-  /\ c.op = "update" => GetType(n2, c.p) = c.t /\ (c.i # 0 => GetOid(n2, c.p) = c.i)
-                        /\ GetMeta(n2, c.p) = (IF c.k = 1 /\ c.m = 0 /\ GetType(n, c.p) = c.t /\ GetOid(n2, c.p) = GetOid(n, c.p)
-                                               THEN GetMeta(n, c.p) ELSE c.m)
+  /\ c.op = "update" =>
+        LET kept == /\ GetType(n, c.p) = c.t /\ (c.i = 0 \/ GetOid(n, c.p) \in {0, c.i})     \* the node is not replaced
+                    /\ ~\E h \in Holders(n, c.i) : StrictPrefix(h, Norm(c.p))
+        IN /\ GetType(n2, c.p) = c.t /\ (c.i # 0 => GetOid(n2, c.p) = c.i)
+           /\ GetMeta(n2, c.p) = (IF kept /\ c.k = 1 /\ c.m = 0 THEN GetMeta(n, c.p) ELSE c.m)
+  /\ c.op = "set_meta_path" /\ Exists(n, Norm(c.p)) => GetMeta(n2, c.p) = c.m
 
 StepProps == \A c \in AllCalls : Fits(node, c) =>
    LET n2 == Eff(node, c)
